@@ -130,7 +130,8 @@ bool exec_spline(ExecCtx &c) {
           [&](const auto &s) {
             using S = std::decay_t<decltype(s)>;
             std::optional<S> tmp;
-            libcall(out, [&] { tmp.emplace(s); });
+            const int cs = value_cat(c, src, 0, false);
+            libcall(out, [&] { as_cat(cs, s, [&](auto &&ss) { tmp.emplace(SIM_FWD(ss)); }); });
             if (tmp) store_result(c, dst, std::move(*tmp));
             sim::LibRegion lr;
             tmp.reset();
@@ -160,7 +161,8 @@ bool exec_spline(ExecCtx &c) {
               Fn expect = fn_of(s);
 #endif
               sim::g_cur->note = 2;
-              libcall(out, [&] { d = s; });
+              const int cs = src == dst ? (int)CAT_CONST : value_cat(c, src, 0, false);
+              libcall(out, [&] { as_cat(cs, s, [&](auto &&ss) { d = SIM_FWD(ss); }); });
               if ((out.status == ST_BSPLINE || out.status == ST_OTHER_EXC) && !fault_fired())
                 add_violation(c, "C03", "valid-call-threw", "assignment threw " + std::string(status_name(out.status)),
                               "Spline::operator=");
